@@ -24,14 +24,14 @@ import (
 
 // builtWorld is a materialised gen.SchedWorld.
 type builtWorld struct {
-	W           *sim.World
-	S           *gen.SchedWorld
-	Pools       map[string]*v1.NodePool
-	Unready     map[string]*v1.NodePool // pools that exist but are not Ready (gen.SchedWorld.PoolReady)
-	Nodes       map[string]*sim.BuiltNode
-	Originals   map[types.UID]*corev1.Pod // every pod the harness created, as created
+	W         *sim.World
+	S         *gen.SchedWorld
+	Pools     map[string]*v1.NodePool
+	Unready   map[string]*v1.NodePool // pools that exist but are not Ready (gen.SchedWorld.PoolReady)
+	Nodes     map[string]*sim.BuiltNode
+	Originals map[types.UID]*corev1.Pod // every pod the harness created, as created
 	// choiceOK, when set, restricts poolFeasible to launch choices it accepts (the daemon overhead is still taken over all)
-	choiceOK func(launchChoice) bool
+	choiceOK    func(launchChoice) bool
 	DaemonSets  []*appsv1.DaemonSet
 	Provisioner *provisioning.Provisioner
 }
